@@ -19,6 +19,9 @@ def run(ctx):
     # waypoint: the first transaction rejected (abort possibly interrupted), the second committed behind it; 14 more steps
     wayf = {'pred': 'reach:w-FC', 'depth': 22, 'seed': {'pred': 'reach:w-F-', 'depth': 24}, 'variants': 1 if quick else 3}
     q12 += [('stuck', 14, ['bad:c07-wrong-outcome-at-quiescence', 'bad:stranded'], wayf)]
+    # waypoint: the abort of the first (rejected) transaction's proposal still under way while the second is committed behind it
+    wayb = {'pred': 'reach:w-BC', 'depth': 22, 'seed': {'pred': 'reach:w-B-', 'depth': 22}, 'variants': 1 if quick else 3}
+    q12 += [('stuck', 12, ['bad:c07-wrong-outcome-at-quiescence', 'bad:stranded'], wayb)]
     proto.run(ctx, 'C07', [('1x1c', c11, q11, []), ('1x2c', c12, q12, [])],
               'process stops injected between any two store/device calls of any step (symbolic crash position per step, budget of '
               'crashes per history): BMC "at quiescence every transaction has the crash-free outcome, nothing merged twice or out of '
